@@ -154,3 +154,42 @@ func Harness_C13_protobuf_reuse_tag_entry() {
 	msg := append([]byte{0x12, byte(n)}, entry...)
 	c13ProtoReuse(msg)
 }
+
+// The protobuf "value" field (5) arriving in 1..3 records, each a packed chunk of 1..2 doubles or a
+// single unpacked fixed64 (all legal protobuf for a repeated double), arbitrary bit patterns: the
+// decoded value list is the concatenation of all records in wire order - what the TL, JSON and
+// MessagePack forms of the same batch carry.
+func Harness_C13_protobuf_value_records() {
+	var msg []byte
+	var want []uint64
+	n := 1 + v.Choice(3)
+	for r := 0; r < n; r++ {
+		k := v.Choice(3) // 0: unpacked single, 1: packed x1, 2: packed x2
+		cnt := k
+		if k == 0 {
+			cnt = 1
+			msg = append(msg, 0x29)
+		} else {
+			msg = append(msg, 0x2a, byte(8*k))
+		}
+		for j := 0; j < cnt; j++ {
+			x := v.NondetU64()
+			want = append(want, x)
+			for b := 0; b < 8; b++ {
+				msg = append(msg, byte(x>>(8*b)))
+			}
+		}
+	}
+	var m tlstatshouse.MetricBytes
+	_, err := protobufUnmarshalStatshouseMetric(msg, &m)
+	v.Assert("C13.proto.values.decodes", err == nil && m.IsSetValue())
+	v.Assert("C13.proto.values.count_is_sum_of_records", len(m.Value) == len(want))
+	if len(m.Value) == len(want) {
+		same := true
+		for i := range want {
+			same = v.And(same, math.Float64bits(m.Value[i]) == want[i])
+		}
+		v.Assert("C13.proto.values.concatenation_in_wire_order", same)
+	}
+	v.Reach("C13.proto.values.end")
+}
